@@ -255,7 +255,7 @@ def _mk(kind, part, parts, tier):
             sym.EXPLORE_DEADLINE = time.time() + PROGRAM_BUDGET_S
             sym.PATH_BUDGET_S = min(old_budget, PROGRAM_BUDGET_S)
             try:
-                pc._run_program(sub, f"E2E.generated.{kind}", name, prog, options, kind == "grouping", "nsl.Compiler::Compiler.Compile")
+                pc._run_program(sub, f"E2E.generated.{kind}", name, prog, options, kind == "grouping", "nsl.Compiler::Compiler.Compile", timeout_fails=False)
             except PathLimit:
                 skipped += 1
                 continue
